@@ -39,6 +39,14 @@ type fsNode struct {
 	target StrV
 	live   bool
 	root   *fsNode // directory the node was created in through an os.Root (symbolic names)
+	data   *ByteMem // file content
+	size   *Term    // file size (64-bit)
+}
+
+// an open file: the node and a read/write position
+type fsOpen struct {
+	node *fsNode
+	pos  *Term
 }
 
 type fsDirent struct {
@@ -200,6 +208,9 @@ func (in *Interp) fsFileInfoMethod(fi *fsInfo, name string, args []Value) Value 
 	case "Name":
 		return in.strConst(fi.name)
 	case "Size":
+		if fi.node.size != nil {
+			return fi.node.size
+		}
 		return tb.Int(0)
 	case "Sys":
 		t := in.namedType("syscall", "Stat_t")
@@ -310,15 +321,98 @@ func registerFSNatives(in *Interp) {
 	}
 	n["os.WriteFile"] = func(in *Interp, fn *ssa.Function, args []Value) Value {
 		p := args[0].(StrV)
-		if nd := in.fsFind(p); nd != nil {
-			if nd.kind == fsDir {
-				return in.fsErr("open", "is a directory")
-			}
-			return nilErr
+		nd := in.fsFind(p)
+		if nd != nil && nd.kind == fsDir {
+			return in.fsErr("open", "is a directory")
 		}
-		in.fsAdd(p, fsFile, perm32(args[2]), StrV{})
-		in.fsm().log = append(in.fsm().log, fsEvent{"create", p})
+		if nd == nil {
+			in.fsAdd(p, fsFile, perm32(args[2]), StrV{})
+			in.fsm().log = append(in.fsm().log, fsEvent{"create", p})
+			nd = in.fsFind(p)
+		}
+		if b, ok := args[1].(SliceV); ok && nd != nil {
+			nd.data = in.memCopy(zeroMem, in.tb.Int(0), in.sliceMem(b), b.Off, b.Len)
+			nd.size = b.Len
+		}
 		return nilErr
+	}
+	// regular files with content: os.Create / os.Open / os.ReadFile and the *os.File
+	// methods Write, Read, Close, Stat, Name (sequential access only)
+	openFile := func(in *Interp, nd *fsNode) Value {
+		o := in.newObj(in.newModel("osfile", &fsOpen{node: nd, pos: in.tb.Int(0)}), nil, "osfile")
+		return Ptr{Obj: o}
+	}
+	fileOf := func(in *Interp, v Value) *fsOpen {
+		p := v.(Ptr)
+		if p.Obj == nil {
+			in.nilDeref()
+		}
+		return p.Obj.Val.(*ModelObj).Data.(*fsOpen)
+	}
+	n["os.Create"] = func(in *Interp, fn *ssa.Function, args []Value) Value {
+		p := args[0].(StrV)
+		nd := in.fsResolve(p)
+		if nd != nil && nd.kind == fsDir {
+			return TupleV{Ptr{}, in.fsErr("open", "is a directory")}
+		}
+		if nd == nil {
+			in.fsAdd(p, fsFile, in.tb.Const(32, 0o644), StrV{})
+			in.fsm().log = append(in.fsm().log, fsEvent{"create", p})
+			nd = in.fsFind(p)
+		}
+		nd.data, nd.size = zeroMem, in.tb.Int(0)
+		return TupleV{openFile(in, nd), nilErr}
+	}
+	n["os.Open"] = func(in *Interp, fn *ssa.Function, args []Value) Value {
+		nd := in.fsResolve(args[0].(StrV))
+		if nd == nil {
+			return TupleV{Ptr{}, in.fsErr("open", "no such file or directory")}
+		}
+		if nd.data == nil {
+			nd.data, nd.size = zeroMem, in.tb.Int(0)
+		}
+		return TupleV{openFile(in, nd), nilErr}
+	}
+	n["(*os.File).Write"] = func(in *Interp, fn *ssa.Function, args []Value) Value {
+		f := fileOf(in, args[0])
+		b := args[1].(SliceV)
+		f.node.data = in.memCopy(f.node.data, f.pos, in.sliceMem(b), b.Off, b.Len)
+		f.pos = in.tb.Add(f.pos, b.Len)
+		f.node.size = in.tb.Ite(in.tb.SLt(f.node.size, f.pos), f.pos, f.node.size)
+		return TupleV{b.Len, nilErr}
+	}
+	n["(*os.File).Read"] = func(in *Interp, fn *ssa.Function, args []Value) Value {
+		f := fileOf(in, args[0])
+		b := args[1].(SliceV)
+		left := in.tb.Sub(f.node.size, f.pos)
+		if in.branch(in.tb.SLe(left, in.tb.Int(0))) {
+			return TupleV{in.tb.Int(0), in.ioEOF()}
+		}
+		nn := in.tb.Ite(in.tb.SLt(left, b.Len), left, b.Len)
+		so := in.newObj(f.node.data, nil, "filedata")
+		in.copyOp(b, SliceV{Base: Ptr{Obj: so}, Off: f.pos, Len: nn, Cap: nn, Byte: true, Max: b.Max})
+		f.pos = in.tb.Add(f.pos, nn)
+		return TupleV{nn, nilErr}
+	}
+	n["(*os.File).Close"] = func(in *Interp, fn *ssa.Function, args []Value) Value { return nilErr }
+	n["(*os.File).Sync"] = n["(*os.File).Close"]
+	n["(*os.File).Stat"] = func(in *Interp, fn *ssa.Function, args []Value) Value {
+		return TupleV{in.fsInfoOf(fileOf(in, args[0]).node), nilErr}
+	}
+	n["os.ReadFile"] = func(in *Interp, fn *ssa.Function, args []Value) Value {
+		nd := in.fsResolve(args[0].(StrV))
+		if nd == nil || nd.kind != fsFile {
+			return TupleV{in.zero(fn.Signature.Results().At(0).Type()), in.fsErr("open", "no such file or directory")}
+		}
+		if nd.data == nil {
+			nd.data, nd.size = zeroMem, in.tb.Int(0)
+		}
+		o := in.newObj(nd.data, nil, "filedata")
+		mx := -1
+		if nd.size.IsConst() {
+			mx = int(nd.size.V)
+		}
+		return TupleV{SliceV{Base: Ptr{Obj: o}, Off: in.tb.Int(0), Len: nd.size, Cap: nd.size, Byte: true, Max: mx}, nilErr}
 	}
 	n["os.Lstat"] = func(in *Interp, fn *ssa.Function, args []Value) Value {
 		nd := in.fsFind(args[0].(StrV))
@@ -521,4 +615,16 @@ func (in *Interp) jsonValue(v interface{}, mapT types.Type, mt *types.Map) Value
 		return IfaceV{T: st, V: SliceV{Base: Ptr{Obj: o}, Off: in.tb.Int(0), Len: n, Cap: n, Max: len(elems)}}
 	}
 	panic(fmt.Sprintf("json value %T", v))
+}
+
+// ioEOF is the library's io.EOF sentinel (the package variable, so comparisons with
+// it in the code under test hold).
+func (in *Interp) ioEOF() Value {
+	for _, p := range in.prog.AllPackages() {
+		if p.Pkg.Path() == "io" {
+			g := p.Var("EOF")
+			return in.load(Ptr{Obj: in.global(g)})
+		}
+	}
+	panic("package io not loaded")
 }
